@@ -20,13 +20,6 @@ Record run_out := mk_run_out {
   ro_load : res (list chunk)
 }.
 
-(* forked children: the chunks are saved in the given order of chunk numbers by child processes *)
-Fixpoint save_children (cfg : save_cfg) (s : saver rblob) (jobs : list (Z * chunk)) : res (saver rblob) :=
-  match jobs with
-  | [] => Ok s
-  | (i, c) :: rest => do s' <- save_in_child rblob rencode rbsize cfg s c i; save_children cfg s' rest
-  end.
-
 (* digest of a run used by the kernel cross-check of the extraction: (save code, load code,
    (start, end, n) of the loaded chunks, (chunk_i, n, file number or -1) of the stored entries) *)
 Definition res_code {A} (r : res A) : Z := match r with Ok _ => 0 | Err e => e end.
@@ -48,7 +41,7 @@ Definition c03_run (cfg : save_cfg) (md0 : metadata) (cs : list chunk) (order : 
     | [] => save_from rblob rencode rbsize cfg s0 cs
     | _ =>
         let jobs := flat_map (fun k => match nth_error cs k with Some c => [(Z.of_nat k, c)] | None => [] end) order in
-        match save_children cfg s0 jobs with
+        match save_children rblob rencode rbsize cfg s0 jobs with
         | Err e => (s0, Err e)
         | Ok s => match close s false with Ok s' => (s', Ok tt) | Err e => (s, Err e) end
         end
